@@ -23,6 +23,9 @@ Fail-closed: anything outside the subset raises TranslateError, which the checks
 broken tie."""
 import os
 import re
+import os as _os, sys as _sys
+_sys.path.insert(0, _os.path.dirname(_os.path.abspath(__file__)))
+import cxxcanon
 import sys
 
 REPO = os.environ.get('VERIF_REPO', '/repo')
@@ -707,8 +710,13 @@ def struct_decl(name, spec):
 # ---------------------------------------------------------------------------------------------
 
 def strip_comments(src):
-    src = re.sub(r'/\*.*?\*/', lambda m: re.sub(r'[^\n]', ' ', m.group(0)), src, flags=re.S)
-    return re.sub(r'//[^\n]*', '', src)
+    """comments and formatting removed (tools/cxxcanon.py): the per-function `rewrites` are written for that canonical text"""
+    return cxxcanon.canon_source(src)
+
+
+def cpat(snippet):
+    """regex matching the canonical form of a C++ snippet"""
+    return re.escape(cxxcanon.canon_code(snippet))
 
 
 def function_body(rel, name, nth=0):
